@@ -317,10 +317,216 @@ func c03Gen(g *Gen) {
 
 // ---------------------------------------------------------------- extractor (go/ast over parser.go)
 
+// c03Kinds: Lean constructor of Ecal.Expr.Kind -> token constant
+var c03Kinds = [][2]string{
+	{".num", "TokenNUMBER"}, {".str", "TokenSTRING"}, {".ident", "TokenIDENTIFIER"},
+	{".tru", "TokenTRUE"}, {".fls", "TokenFALSE"}, {".null", "TokenNULL"},
+	{".lp", "TokenLPAREN"}, {".rp", "TokenRPAREN"}, {".lb", "TokenLBRACK"}, {".rb", "TokenRBRACK"},
+	{".comma", "TokenCOMMA"}, {".eof", "TokenEOF"}, {".not", "TokenNOT"},
+	{".op .geq", "TokenGEQ"}, {".op .leq", "TokenLEQ"}, {".op .neq", "TokenNEQ"}, {".op .eq", "TokenEQ"},
+	{".op .gt", "TokenGT"}, {".op .lt", "TokenLT"},
+	{".op .plus", "TokenPLUS"}, {".op .minus", "TokenMINUS"}, {".op .times", "TokenTIMES"}, {".op .div", "TokenDIV"},
+	{".op .divint", "TokenDIVINT"}, {".op .modint", "TokenMODINT"},
+	{".op .and", "TokenAND"}, {".op .or", "TokenOR"},
+	{".op .like", "TokenLIKE"}, {".op .isin", "TokenIN"}, {".op .hasprefix", "TokenHASPREFIX"},
+	{".op .hassuffix", "TokenHASSUFFIX"}, {".op .notin", "TokenNOTIN"}, {".op .assign", "TokenASSIGN"},
+}
+
+type c03Entry struct {
+	node, nud, led string
+	binding       int
+	found         bool
+}
+
+func c03ExprName(e ast.Expr) string {
+	switch x := e.(type) {
+	case *ast.Ident:
+		return x.Name
+	case *ast.BasicLit:
+		return x.Value
+	}
+	return "?"
+}
+
+// c03RunArg finds the first call p.run(arg) in the body of function name and returns
+// (usesSelfBinding, constant): arg is either N or self.binding or self.binding + N.
+func c03RunArg(file *ast.File, name string) (bool, int, error) {
+	for _, d := range file.Decls {
+		fd, ok := d.(*ast.FuncDecl)
+		if !ok || fd.Name.Name != name || fd.Recv != nil {
+			continue
+		}
+		var arg ast.Expr
+		ast.Inspect(fd.Body, func(n ast.Node) bool {
+			if c, ok := n.(*ast.CallExpr); ok && arg == nil {
+				if se, ok := c.Fun.(*ast.SelectorExpr); ok && se.Sel.Name == "run" && len(c.Args) == 1 {
+					arg = c.Args[0]
+				}
+			}
+			return true
+		})
+		if arg == nil {
+			return false, 0, fmt.Errorf("%s: no call of p.run", name)
+		}
+		isSelfBinding := func(e ast.Expr) bool {
+			se, ok := e.(*ast.SelectorExpr)
+			if !ok || se.Sel.Name != "binding" {
+				return false
+			}
+			id, ok := se.X.(*ast.Ident)
+			return ok && id.Name == "self"
+		}
+		switch x := arg.(type) {
+		case *ast.BasicLit:
+			n, err := strconv.Atoi(x.Value)
+			return false, n, err
+		case *ast.SelectorExpr:
+			if isSelfBinding(x) {
+				return true, 0, nil
+			}
+		case *ast.BinaryExpr:
+			if x.Op == token.ADD {
+				if lit, ok := x.Y.(*ast.BasicLit); ok && isSelfBinding(x.X) {
+					n, err := strconv.Atoi(lit.Value)
+					return true, n, err
+				}
+				if lit, ok := x.X.(*ast.BasicLit); ok && isSelfBinding(x.Y) {
+					n, err := strconv.Atoi(lit.Value)
+					return true, n, err
+				}
+			}
+		}
+		return false, 0, fmt.Errorf("%s: argument of p.run not understood", name)
+	}
+	return false, 0, fmt.Errorf("function %s not found", name)
+}
+
 func c03Extract(args []string) int {
-	_ = ast.Inspect
-	_ = goparser.ParseFile
-	_ = token.NewFileSet
-	_ = filepath.Join
-	return 2
+	if len(args) != 1 {
+		fmt.Fprintln(os.Stderr, "usage: harness C03 -tool extract <out.lean>")
+		return 2
+	}
+	fset := token.NewFileSet()
+	file, err := goparser.ParseFile(fset, filepath.Join(repoDir(), "parser", "parser.go"), nil, 0)
+	if err != nil {
+		fmt.Fprintln(os.Stderr, err)
+		return 1
+	}
+	fields := []string{"Name", "Token", "Meta", "Children", "Runtime", "binding", "nullDenotation", "leftDenotation"}
+	entries := map[string]c03Entry{}
+	nmaps := 0
+	ast.Inspect(file, func(n ast.Node) bool {
+		as, ok := n.(*ast.AssignStmt)
+		if !ok || len(as.Lhs) != 1 || len(as.Rhs) != 1 {
+			return true
+		}
+		if id, ok := as.Lhs[0].(*ast.Ident); !ok || id.Name != "astNodeMap" {
+			return true
+		}
+		cl, ok := as.Rhs[0].(*ast.CompositeLit)
+		if !ok {
+			return true
+		}
+		nmaps++
+		for _, el := range cl.Elts {
+			kv, ok := el.(*ast.KeyValueExpr)
+			if !ok {
+				continue
+			}
+			key := c03ExprName(kv.Key)
+			vl, ok := kv.Value.(*ast.CompositeLit)
+			if !ok {
+				continue
+			}
+			vals := map[string]ast.Expr{}
+			for i, f := range vl.Elts {
+				if fkv, ok := f.(*ast.KeyValueExpr); ok {
+					vals[c03ExprName(fkv.Key)] = fkv.Value
+				} else if i < len(fields) {
+					vals[fields[i]] = f
+				}
+			}
+			e := c03Entry{node: "\"\"", nud: "nil", led: "nil", found: true}
+			if v, ok := vals["Name"]; ok {
+				e.node = c03ExprName(v)
+			}
+			if v, ok := vals["binding"]; ok {
+				b, err := strconv.Atoi(c03ExprName(v))
+				if err != nil {
+					fmt.Fprintln(os.Stderr, "binding of", key, "is not an integer literal")
+					b = -1
+				}
+				e.binding = b
+			}
+			if v, ok := vals["nullDenotation"]; ok {
+				e.nud = c03ExprName(v)
+			}
+			if v, ok := vals["leftDenotation"]; ok {
+				e.led = c03ExprName(v)
+			}
+			entries[key] = e
+		}
+		return true
+	})
+	if nmaps != 1 {
+		fmt.Fprintln(os.Stderr, "expected exactly one assignment to astNodeMap, found", nmaps)
+		return 1
+	}
+	for _, e := range entries {
+		if e.binding < 0 {
+			return 1
+		}
+	}
+	preSelf, preN, err1 := c03RunArg(file, "ndPrefix")
+	inSelf, inN, err2 := c03RunArg(file, "ldInfix")
+	innerSelf, innerN, err3 := c03RunArg(file, "ndInner")
+	listSelf, listN, err4 := c03RunArg(file, "ndList")
+	for _, e := range []error{err1, err2, err3, err4} {
+		if e != nil {
+			fmt.Fprintln(os.Stderr, e)
+			return 1
+		}
+	}
+	if !preSelf || !inSelf || innerSelf || listSelf {
+		fmt.Fprintln(os.Stderr, "ndPrefix/ldInfix must parse their operand at self.binding (+N), ndInner/ndList at a constant")
+		return 1
+	}
+	nudName := map[string]string{"nil": ".none", "ndTerm": ".term", "ndIdentifier": ".ident", "ndInner": ".inner", "ndList": ".list", "ndPrefix": ".pre"}
+	ledName := map[string]string{"nil": ".none", "ldInfix": ".infix"}
+	var sb strings.Builder
+	sb.WriteString("import Ecal.Model.Expr\n/-! GENERATED by `harness C03 -tool extract` from parser/parser.go (astNodeMap, ndPrefix, ldInfix,\nndInner, ndList) on every run of the check — do not edit. -/\nnamespace Ecal.Gen.C03\nopen Ecal.Expr\n\n")
+	col := func(title, typ string, f func(e c03Entry) string, dflt string) {
+		sb.WriteString("def " + title + " : Kind → " + typ + "\n")
+		for _, k := range c03Kinds {
+			e, ok := entries[k[1]]
+			v := dflt
+			if ok {
+				v = f(e)
+			}
+			sb.WriteString(fmt.Sprintf("  | %s => %s\n", k[0], v))
+		}
+		sb.WriteString("  | .other => " + dflt + "\n\n")
+	}
+	col("binding", "Nat", func(e c03Entry) string { return strconv.Itoa(e.binding) }, "0")
+	col("nud", "Nud", func(e c03Entry) string {
+		if v, ok := nudName[e.nud]; ok {
+			return v
+		}
+		return ".other"
+	}, ".other")
+	col("led", "Led", func(e c03Entry) string {
+		if v, ok := ledName[e.led]; ok {
+			return v
+		}
+		return ".other"
+	}, ".other")
+	col("node", "String", func(e c03Entry) string { return strconv.Quote(strings.Trim(e.node, "\"")) }, "\"?\"")
+	sb.WriteString(fmt.Sprintf("def table : Table :=\n  { binding := binding, nud := nud, led := led, node := node,\n    prefixExtra := %d, infixExtra := %d, innerBinding := %d, listBinding := %d }\n\nend Ecal.Gen.C03\n", preN, inN, innerN, listN))
+	os.MkdirAll(filepath.Dir(args[0]), 0755)
+	os.Remove(args[0])
+	if err := os.WriteFile(args[0], []byte(sb.String()), 0644); err != nil {
+		fmt.Fprintln(os.Stderr, err)
+		return 1
+	}
+	return 0
 }
